@@ -355,6 +355,266 @@ pub fn exec(c: &Case) -> Outcome {
     o
 }
 
+// ---------------------------------------------------------------------------------------------
+// part `server-events`: publishes while the server makes the I/O thread write on the same channel
+
+/// What the server sends when it sees frame number `at` of the publishing channel's content
+/// stream (0 = the first Basic.Publish method frame, counting every method/header/body frame of
+/// every publish).
+#[derive(Clone, Debug, Serialize, Deserialize, PartialEq)]
+pub struct Trigger {
+    pub at: u16,
+    /// which consumer (index into the consumers of the channel, modulo)
+    pub consumer: u8,
+    pub nowait: bool,
+}
+
+#[derive(Clone, Debug, Serialize, Deserialize, PartialEq)]
+pub struct SCase {
+    pub frame_max: u32,
+    pub mem_bound: u8,
+    pub consumers: u8,
+    /// body frames per publish (>= 1), plus a byte offset
+    pub pubs: Vec<(u8, i8)>,
+    pub triggers: Vec<Trigger>,
+    pub salt: u64,
+}
+
+struct TrigBroker {
+    inner: AutoBroker,
+    ch: u16,
+    tags: Vec<String>,
+    seen_content: u32,
+    triggers: Vec<Trigger>,
+    cancelled: Vec<(String, bool)>,
+}
+
+impl crate::broker::Responder for TrigBroker {
+    fn on_frame(&mut self, io: &mut crate::broker::BrokerIo, frame: &AMQPFrame) {
+        use amq_protocol::protocol::basic::AMQPMethod as Basic;
+        let before = io.sent.len();
+        self.inner.on_frame(io, frame);
+        for f in &io.sent[before..] {
+            if let AMQPFrame::Method(_, AMQPClass::Basic(Basic::ConsumeOk(ok))) = f {
+                self.tags.push(ok.consumer_tag.clone());
+            }
+        }
+        let is_content = match frame {
+            AMQPFrame::Method(c, AMQPClass::Basic(Basic::Publish(_))) => *c == self.ch,
+            AMQPFrame::Header(c, _, _) | AMQPFrame::Body(c, _) => *c == self.ch,
+            _ => false,
+        };
+        if !is_content {
+            return;
+        }
+        let n = self.seen_content;
+        self.seen_content += 1;
+        let due: Vec<Trigger> = self.triggers.iter().filter(|t| t.at as u32 == n).cloned().collect();
+        for t in due {
+            if self.tags.is_empty() {
+                continue;
+            }
+            let tag = self.tags[t.consumer as usize % self.tags.len()].clone();
+            if self.cancelled.iter().any(|(g, _)| *g == tag) {
+                continue; // a compliant server cancels a consumer once
+            }
+            self.cancelled.push((tag.clone(), t.nowait));
+            io.send_method(
+                self.ch,
+                AMQPClass::Basic(Basic::Cancel(amq_protocol::protocol::basic::Cancel { consumer_tag: tag, nowait: t.nowait })),
+            );
+        }
+    }
+    fn on_tick(&mut self, io: &mut crate::broker::BrokerIo) {
+        self.inner.on_tick(io)
+    }
+}
+
+pub fn exec_server_events(c: &SCase) -> Outcome {
+    use amq_protocol::protocol::basic::AMQPMethod as Basic;
+    let ccfg = ClientCfg {
+        frame_max: c.frame_max,
+        mem_channel_bound: c.mem_bound.max(1) as usize,
+        ..Default::default()
+    };
+    let scfg = ServerCfg {
+        frame_max: c.frame_max,
+        ..Default::default()
+    };
+    let p = c.frame_max as usize - 8;
+    let broker = TrigBroker {
+        inner: AutoBroker::new(c.salt),
+        ch: 1,
+        tags: Vec::new(),
+        seen_content: 0,
+        triggers: c.triggers.clone(),
+        cancelled: Vec::new(),
+    };
+    let mut sess = open_session(&ccfg, scfg, vec![], broker);
+    let mut conn = match sess.conn.take() {
+        Some(c) => c,
+        None => {
+            let _ = sess.broker.stop();
+            return Outcome {
+                inconclusive: Some(format!("open failed: {:?}", sess.open_error)),
+                ..Default::default()
+            };
+        }
+    };
+    let case = c.clone();
+    let res = timed(CALL_TIMEOUT * 3, "avh-c02-se", move || -> Result<(Vec<PublishExpect>, Vec<Vec<String>>, amiquip::Connection), String> {
+        let ch = conn.open_channel(Some(1)).map_err(|e| format!("open_channel: {:?}", e))?;
+        let mut consumers = Vec::new();
+        for i in 0..case.consumers.max(1) {
+            consumers.push(
+                ch.basic_consume(format!("q{}", i), amiquip::ConsumerOptions::default())
+                    .map_err(|e| format!("consume: {:?}", e))?,
+            );
+        }
+        let mut log = Vec::new();
+        for (i, (k, d)) in case.pubs.iter().enumerate() {
+            let len = ((*k as usize).max(1) * p) as i64 + *d as i64;
+            let body = body_bytes(len.max(1) as usize, case.salt.wrapping_add(i as u64));
+            ch.basic_publish("x", Publish::new(&body, format!("rk{}", i))).map_err(|e| format!("publish {}: {:?}", i, e))?;
+            log.push(PublishExpect {
+                exchange: "x".into(),
+                routing_key: format!("rk{}", i),
+                mandatory: false,
+                immediate: false,
+                props: Default::default(),
+                body,
+            });
+        }
+        // a synchronous call orders us behind everything the server sent so far
+        ch.qos(0, 0, false).map_err(|e| format!("barrier: {:?}", e))?;
+        let mut terminal = Vec::new();
+        for cons in &consumers {
+            let mut msgs = Vec::new();
+            while let Ok(m) = cons.receiver().try_recv() {
+                msgs.push(format!("{:?}", m).chars().take(40).collect::<String>());
+            }
+            terminal.push(msgs);
+        }
+        drop(consumers);
+        ch.close().map_err(|e| format!("channel close: {:?}", e))?;
+        Ok((log, terminal, conn))
+    });
+    let (log, terminal, conn) = match res {
+        Some(Ok(x)) => x,
+        Some(Err(e)) => {
+            let _ = sess.broker.stop();
+            return Outcome::fail("call-failed-under-server-events", e);
+        }
+        None => {
+            sess.wire.push_eof();
+            let _ = sess.broker.stop();
+            return Outcome::hang("publish-hang", "publishing thread did not finish");
+        }
+    };
+    let close = timed_close(conn);
+    let io_thread = sess.wire.io_thread();
+    let (b, _io) = sess.broker.stop();
+    match close {
+        Some(Ok(())) => {}
+        Some(Err(e)) => return Outcome::fail("close-failed", format!("{:?}", e)),
+        None => return Outcome::hang("close-hang", "Connection::close did not return"),
+    }
+    if let Some(t) = io_thread {
+        let p = take_panics(t);
+        if !p.is_empty() {
+            return Outcome::fail("io-thread-panic", format!("{:?}", p));
+        }
+    }
+    let out = sess.wire.out_snapshot();
+    let d = match check_stream_wellformed(&out) {
+        Ok(d) => d,
+        Err((s, m)) => return Outcome::fail(s, m),
+    };
+    let chans = per_channel(&d);
+    let frames = match chans.get(&1) {
+        Some(f) => f,
+        None => return Outcome::fail("channel-frames-missing", "no frames on channel 1".to_string()),
+    };
+    let is_cancel_ok = |f: &AMQPFrame| matches!(f, AMQPFrame::Method(_, AMQPClass::Basic(Basic::CancelOk(_))));
+    // locate the first Basic.Publish
+    let mut pos = match frames.iter().position(|(_, f)| matches!(f, AMQPFrame::Method(_, AMQPClass::Basic(Basic::Publish(_))))) {
+        Some(i) => i,
+        None => return Outcome::fail("publish-missing", "no Basic.Publish on channel 1".to_string()),
+    };
+    let first_publish = pos;
+    let mut cancel_oks_between = 0usize;
+    for (i, exp) in log.iter().enumerate() {
+        // frames the I/O thread writes on its own (CancelOk) may stand between publishes ...
+        while frames.get(pos).map_or(false, |(_, f)| is_cancel_ok(f)) {
+            pos += 1;
+            if i > 0 {
+                cancel_oks_between += 1;
+            }
+        }
+        // ... but never inside one
+        let start = pos;
+        if let Err((sig, m)) = check_publish_at(frames, &mut pos, exp, c.frame_max) {
+            let window: Vec<String> = frames[start..(start + 6).min(frames.len())].iter().map(|(_, f)| crate::oracle::brief(f)).collect();
+            let foreign = frames[start..].iter().take(exp.body.len() / p + 3).any(|(_, f)| is_cancel_ok(f));
+            let sig = if foreign { "publish-frames-not-contiguous".to_string() } else { sig };
+            return Outcome::fail(sig, format!("publish {} ({} bytes, {} body frames): {}\nchannel 1 from the publish on: {:?}\ntriggers {:?}", i, exp.body.len(), (exp.body.len() + p - 1) / p, m, window, c.triggers));
+        }
+    }
+    let _ = first_publish;
+    // every cancel with reply is answered exactly once, every consumer that was cancelled got ServerCancelled
+    let want_ok: Vec<&String> = b.cancelled.iter().filter(|(_, nw)| !*nw).map(|(t, _)| t).collect();
+    let got_ok: Vec<String> = frames
+        .iter()
+        .filter_map(|(_, f)| match f {
+            AMQPFrame::Method(_, AMQPClass::Basic(Basic::CancelOk(ok))) => Some(ok.consumer_tag.clone()),
+            _ => None,
+        })
+        .collect();
+    let mut a: Vec<String> = want_ok.iter().map(|s| s.to_string()).collect();
+    let mut g = got_ok.clone();
+    a.sort();
+    g.sort();
+    if a != g {
+        return Outcome::fail("server-cancel-answers-differ", format!("CancelOk on the wire for {:?}, server cancelled (with reply) {:?}", got_ok, want_ok));
+    }
+    let n_term: usize = terminal.iter().filter(|m| m.iter().any(|s| s.starts_with("ServerCancelled"))).count();
+    if n_term != b.cancelled.len() {
+        return Outcome::fail("server-cancel-not-delivered", format!("{} consumers saw ServerCancelled, the server cancelled {}: {:?}", n_term, b.cancelled.len(), terminal));
+    }
+    let mut o = Outcome::pass(cancel_oks_between > 0 || (!got_ok.is_empty() && log.len() == 1));
+    if cancel_oks_between > 0 {
+        o.labels.push("cancel-ok-between-publishes".into());
+    }
+    if !got_ok.is_empty() {
+        o.labels.push("cancel-ok-written".into());
+    }
+    if b.cancelled.iter().any(|(_, nw)| *nw) {
+        o.labels.push("cancel-nowait".into());
+    }
+    o
+}
+
+fn sstrat(_t: Tier) -> BoxedStrategy<SCase> {
+    let trig = (0u16..120, any::<u8>(), prop::bool::weighted(0.2)).prop_map(|(at, consumer, nowait)| Trigger { at, consumer, nowait });
+    (
+        prop::sample::select(vec![4096u32, 4097, 8192]),
+        1u8..=4,
+        1u8..=4,
+        vec((1u8..=40, -1i8..=1), 1..=4),
+        vec(trig, 1..=4),
+        any::<u64>(),
+    )
+        .prop_map(|(frame_max, mem_bound, consumers, pubs, triggers, salt)| SCase {
+            frame_max,
+            mem_bound,
+            consumers,
+            pubs,
+            triggers,
+            salt,
+        })
+        .boxed()
+}
+
 pub fn parts() -> Vec<Box<dyn PartDyn>> {
     vec![Box::new(Part::<Case> {
         name: "e2e",
@@ -368,5 +628,18 @@ pub fn parts() -> Vec<Box<dyn PartDyn>> {
         confirm_runs: 2,
             fuzz: None,
             watchdog_s: 60,
+    }),
+    Box::new(Part::<SCase> {
+        name: "server-events",
+        rule: "one channel with 1-4 consumers whose owner publishes 1-4 messages of 1-40 body frames (frame_max 4096/4097/8192, mem_channel_bound 1-4, so the publisher hands its frames to the I/O thread one by one) while the server, on seeing a generated frame of that content stream (method, header or k-th body frame), cancels one of the consumers (Basic.Cancel, 20 % nowait) - which makes the I/O thread itself write Basic.CancelOk on the publishing channel; oracle: on the decoded wire every publish is Publish, header, bodies with nothing in between (a CancelOk may stand between two publishes, never inside one), every cancel with reply is answered exactly once, every cancelled consumer sees ServerCancelled, all calls and the close succeed; non-trivial = a CancelOk was written after the first publish had begun and before the last one ended (or anywhere, for a single publish); distinct by case hash",
+        cases: |t| t.pick(1500, 30_000),
+        threads: 16,
+        strategy: sstrat,
+        exec: exec_server_events,
+        enumerate: None,
+        shrink_budget: 100,
+        confirm_runs: 2,
+        fuzz: None,
+        watchdog_s: 60,
     })]
 }
